@@ -505,6 +505,34 @@ var Corpus = []Scenario{
 		x.Ann("c-valid", "C")
 		x.D.Converge(60)
 	}},
+	{"canary-covers-all-nodes", []string{"C13", "C04", "C07", "C02"}, func(x Scn) {
+		// as many canary replicas as nodes: the active replica set targets no node and reports 0/0/0/0 during the canary
+		sc := CanaryStrategy("2")
+		sc.CDuration = 6
+		x.Setup(2, "A", sc)
+		x.Template("B")
+		x.AwaitCanaryPods(6)
+		x.Rounds(3)
+		x.RestartCanaryPods(6) // fails: the rollback needs the active replica set to still exist
+		x.D.Converge(40)
+	}},
+	{"canary-pause-unpause-pause", []string{"C05", "C08", "C19", "C14"}, func(x Scn) {
+		// a second pause after an unpause (the replica set then carries Canary-Paused=False): the duration elapses while paused
+		cmd := func(v string) { x.do(Action{Op: "Cmd", Key: Key, V: v}) }
+		sc := CanaryStrategy("1")
+		sc.CDuration, sc.CNoRestarts = 12, 1
+		x.Setup(3, "A", sc)
+		x.Template("B")
+		x.AwaitCanaryPods(4)
+		cmd("canary-pause")
+		x.Rounds(2)
+		cmd("canary-unpause")
+		x.Rounds(2)
+		cmd("canary-pause")
+		x.Rounds(10)
+		cmd("canary-unpause")
+		x.D.Converge(40)
+	}},
 	{"canary-validate-while-paused", []string{"C08", "C19", "C05"}, func(x Scn) {
 		// validation without unpausing first: (1) paused by the replica set's own condition (auto-pause), (2) by annotation
 		sc := CanaryStrategy("1")
